@@ -222,11 +222,20 @@ class C02Monitor(Monitor):
                 R.observe('c02_no_J')
                 continue
             dt = c['dt']
+            # classes subject to the documented removal (centre below the minimum radius, at/below the stability index) are
+            # emptied right after the integrator returns; what the integrator wrote there (possibly inf*0 = NaN where the
+            # growth law is singular) is not part of the distribution. Particles can reach them only from the first
+            # surviving class, so that class bounds the loss "through the smallest size class".
+            removable = (Rc < minR) | (np.arange(len(raw)) <= rdf)
+            if np.any(~np.isfinite(raw[removable])):
+                R.observe('c02_nonfinite_in_removed_classes')
+            raw = np.where(removable, 0.0, raw)
+            first = int(np.argmax(~removable)) if np.any(~removable) else 0
             S0 = float(np.sum(prev))
             S1 = float(np.sum(raw))
             tol = 1e-9 * max(S0, S1, 1.0)
             upper = J * dt * (1 + 1e-9) + tol
-            lower = -(float(prev[0]) + float(prev[-1])) - tol
+            lower = -(float(prev[first]) + float(prev[0]) + float(prev[-1])) - tol
             d = S1 - S0
             R.check('c02.transport', lower <= d <= upper,
                     _mech(run, model, p, J_zero=(J == 0), side='increase' if d > upper else 'decrease'),
